@@ -9,12 +9,22 @@ connection id, the command channel the connection task would read (`Chan`: bound
 capacity `cap`, receiver open or dropped — tokio mpsc semantics: `try_send` answers `Closed` if
 the receiver is gone, else `Full` at capacity). Handles are always `Active` in this adapter (the
 keep-alive timeout is one hour), so `try_get_permit` succeeds.
+
+For the methods that delegate to the `TransportManagerHandle` the driver keeps the other side of that handle too:
+the addresses `add_known_address` left in the shared peer table (`known`; TCP is the one enabled transport, the
+service appends `/p2p/<peer>` where it is missing, the handle refuses another peer's id) and the manager's command
+channel (`mgrQ`, capacity 64). None of them touches the service model's state (`Op.managerCall`).
 -/
 namespace Litep2pVerif.Driver.C08
 open Litep2pVerif Litep2pVerif.Service Parse
 
+/-- `ProtocolCommand` in a connection's command channel. -/
+inductive QCmd where
+  | openSub (sid c : Nat)             -- (substream id, connection id)
+  | forceClose
+
 structure Chan where
-  queue : List (Nat × Nat) := []      -- (substream id, connection id) of queued commands
+  queue : List QCmd := []
   rxOpen : Bool := true
 
 structure DState where
@@ -22,6 +32,10 @@ structure DState where
   svc : State := {}
   inbox : List Inner := []
   chans : List (Nat × Chan) := []
+  /-- peer → sorted ports of the addresses stored for it (all end with the peer's own id) -/
+  known : List (Nat × List Nat) := []
+  /-- the manager's command channel (texts as `mgr_recv` prints them) -/
+  mgrQ : List String := []
 
 def init : DState := {}
 
@@ -30,6 +44,38 @@ def chanGet (cs : List (Nat × Chan)) (c : Nat) : Option Chan :=
 
 def chanPut (cs : List (Nat × Chan)) (c : Nat) (ch : Chan) : List (Nat × Chan) :=
   (c, ch) :: cs.filter (fun x => x.1 != c)
+
+/-- `try_send` on a connection's command channel. -/
+def sendRes (cap : Nat) : Option Chan → SendRes
+  | none => .closed
+  | some ch => if !ch.rxOpen then .closed else if ch.queue.length ≥ cap then .full else .ok
+
+def pushCmd (cs : List (Nat × Chan)) (c : Nat) (cmd : QCmd) : List (Nat × Chan) :=
+  match chanGet cs c with
+  | some ch => chanPut cs c { ch with queue := ch.queue ++ [cmd] }
+  | none => cs
+
+def insertNat (x : Nat) : List Nat → List Nat
+  | [] => [x]
+  | y :: ys => if x < y then x :: y :: ys else if x = y then y :: ys else y :: insertNat x ys
+
+def knownGet (k : List (Nat × List Nat)) (p : Nat) : Option (List Nat) :=
+  (k.find? (fun x => x.1 == p)).map (·.2)
+
+def knownPut (k : List (Nat × List Nat)) (p : Nat) (v : List Nat) : List (Nat × List Nat) :=
+  (p, v) :: k.filter (fun x => x.1 != p)
+
+def MGR_CHANNEL : Nat := 64
+
+/-- `cmd_tx.try_send` towards the manager (the receiver is never dropped). -/
+def mgrSend (st : List String) (cmd : String) : List String × String :=
+  if st.length ≥ MGR_CHANNEL then (st, "err clogged") else (st ++ [cmd], "ok")
+
+def showForceErr : Option ForceErr → String
+  | none => "ok"
+  | some .peerDoesntExist => "err no-peer"
+  | some .connectionClosed => "err closed"
+  | some .channelClogged => "err clogged"
 
 def showEv : Ev → String
   | .established p => s!"est:{p}"
@@ -97,17 +143,11 @@ def step (st : DState) (line : String) : DState × String :=
     | some p =>
       -- outcome of `try_send` on the primary connection's command channel
       let target := (cget st.svc.conns p).map (·.primary)
-      let ch := target.bind (chanGet st.chans)
-      let send : SendRes := match ch with
-        | none => .closed
-        | some ch => if !ch.rxOpen then .closed else if ch.queue.length ≥ st.cap then .full else .ok
+      let send : SendRes := sendRes st.cap (target.bind (chanGet st.chans))
       let r := openSubstream st.svc p true send
       match r.2 with
       | .ok (sid, c) =>
-        let chans := match chanGet st.chans c with
-          | some ch => chanPut st.chans c { ch with queue := ch.queue ++ [(sid, c)] }
-          | none => st.chans
-        ({ st with svc := r.1, chans := chans }, s!"ok {sid} {c}")
+        ({ st with svc := r.1, chans := pushCmd st.chans c (.openSub sid c) }, s!"ok {sid} {c}")
       | .error .peerDoesNotExist => ({ st with svc := r.1 }, "err no-peer")
       | .error .connectionClosed => ({ st with svc := r.1 }, "err closed")
       | .error .channelClogged => ({ st with svc := r.1 }, "err clogged")
@@ -121,8 +161,10 @@ def step (st : DState) (line : String) : DState × String :=
         if !ch.rxOpen then (st, "gone") else
         match ch.queue with
         | [] => (st, "empty")
-        | (sid, cc) :: rest =>
+        | .openSub sid cc :: rest =>
           ({ st with chans := chanPut st.chans c { ch with queue := rest } }, s!"open {sid} {cc}")
+        | .forceClose :: rest =>
+          ({ st with chans := chanPut st.chans c { ch with queue := rest } }, "force-close")
     | none => (st, "bad-op")
   | ["conn_drop", c] =>
     match c.toNat? with
@@ -131,6 +173,67 @@ def step (st : DState) (line : String) : DState × String :=
       | none => (st, "ok")
       | some _ => ({ st with chans := chanPut st.chans c { queue := [], rxOpen := false } }, "ok")
     | none => (st, "bad-op")
+  | ["force", p] =>
+    match p.toNat? with
+    | some p =>
+      -- the secondary is sent to first; the primary's `try_send` sees the channel after that (same channel if an
+      -- infeasible history registered one connection id twice)
+      let ctx := cget st.svc.conns p
+      let sec : SendRes := sendRes st.cap ((ctx.bind (·.secondary)).bind (chanGet st.chans))
+      let chans1 := match ctx.bind (·.secondary) with
+        | some h => if sec == .ok then pushCmd st.chans h .forceClose else st.chans
+        | none => st.chans
+      let prim : SendRes := sendRes st.cap ((ctx.map (·.primary)).bind (chanGet chans1))
+      let r := forceClose st.svc p sec prim
+      let chans2 := match ctx with
+        | some c => if prim == .ok then pushCmd chans1 c.primary .forceClose else chans1
+        | none => chans1
+      ({ st with svc := r.1, chans := chans2 }, showForceErr r.2.1 ++ " conns=" ++ showConns r.1.conns)
+    | none => (st, "bad-op")
+  | ["lpid"] => ({ st with svc := (Service.step st.svc .managerCall).1 }, "peer 0")
+  | ["addrs"] => ({ st with svc := (Service.step st.svc .managerCall).1 }, "listen=0 public=0")
+  | ["known", p, kind, port] =>
+    match p.toNat?, port.toNat? with
+    | some p, some port =>
+      if !(["tcp", "tcpp", "wrong", "udp", "unspec"].contains kind) then (st, "bad-op") else
+      -- `or_default()`: the peer gets an entry even if nothing is added
+      let cur := (knownGet st.known p).getD []
+      let new := if kind = "tcp" || kind = "tcpp" then insertNat (port % 65536) cur else cur
+      ({ st with svc := (Service.step st.svc .managerCall).1, known := knownPut st.known p new },
+        "stored=[" ++ joinWith "," (new.map toString) ++ "]")
+    | _, _ => (st, "bad-op")
+  | ["dial", p] =>
+    match p.toNat? with
+    | some p =>
+      let svc := (Service.step st.svc .managerCall).1
+      if p = 0 then ({ st with svc := svc }, "err self") else
+      match knownGet st.known p with
+      | none => ({ st with svc := svc }, "err no-address")
+      | some [] => ({ st with svc := svc }, "err no-address")
+      | some _ =>
+        let (q, r) := mgrSend st.mgrQ s!"dial {p}"
+        ({ st with svc := svc, mgrQ := q }, r)
+    | none => (st, "bad-op")
+  | ["dial_addr", p, kind, port] =>
+    match p.toNat?, port.toNat? with
+    | some p, some port =>
+      if !(["tcp", "tcpp", "wrong", "udp", "unspec"].contains kind) then (st, "bad-op") else
+      let svc := (Service.step st.svc .managerCall).1
+      -- only the presence of a peer id is checked here (the manager checks the rest when it dials)
+      if kind = "tcpp" then
+        let (q, r) := mgrSend st.mgrQ s!"dial_addr {p} {port % 65536}"
+        ({ st with svc := svc, mgrQ := q }, r)
+      else if kind = "wrong" then
+        let (q, r) := mgrSend st.mgrQ s!"dial_addr {p + 100} {port % 65536}"
+        ({ st with svc := svc, mgrQ := q }, r)
+      else ({ st with svc := svc }, "err no-peer-id")
+    | _, _ => (st, "bad-op")
+  | ["unregister"] =>
+    ({ st with svc := (Service.step st.svc .managerCall).1, mgrQ := (mgrSend st.mgrQ "unregister /verif/1").1 }, "ok")
+  | ["mgr_recv"] =>
+    match st.mgrQ with
+    | [] => (st, "empty")
+    | c :: rest => ({ st with mgrQ := rest }, c)
   | ["next"] =>
     let (s', inbox', evs, bug) := drain (st.inbox.length + 1) st.svc st.inbox []
     let evText := "[" ++ joinWith "," (evs.map showEv) ++ "]"
